@@ -98,9 +98,10 @@ def audit(prop):
                        stderr=subprocess.STDOUT, text=True, timeout=1800)
     out = p.stdout
     res = {}
-    for m in re.finditer(r"'([^']+)' depends on axioms: \[([^\]]*)\]", out, re.S):
-        res[m.group(1).split(".")[-1]] = [a.strip() for a in m.group(2).replace("\n", " ").split(",") if a.strip()]
-    for m in re.finditer(r"'([^']+)' does not depend on any axioms", out):
+    flat = re.sub(r"\n\s+", " ", out)      # long axiom lists wrap over lines
+    for m in re.finditer(r"^'(.+)' depends on axioms: \[([^\]]*)\]", flat, re.M):
+        res[m.group(1).split(".")[-1]] = [a.strip() for a in m.group(2).split(",") if a.strip()]
+    for m in re.finditer(r"^'(.+)' does not depend on any axioms", flat, re.M):
         res[m.group(1).split(".")[-1]] = []
     missing = [n for n in names if n.split(".")[-1] not in res]
     return names, res, missing, out
